@@ -79,6 +79,14 @@ func NewEngine(repo, goarch string, tags string) (*Engine, error) {
 
 // ContractFiles lists the guarded contract files of the repository plus extra directories.
 func ContractFiles(repo string, extraDirs ...string) []string {
+	return ContractFilesArch(repo, "", extraDirs...)
+}
+
+// ContractFilesArch skips the assumed contracts of the other architecture's assembly (asm_<arch>.contracts).
+func ContractFilesArch(repo, arch string, extraDirs ...string) []string {
+	if arch == "" {
+		arch = "amd64"
+	}
 	var out []string
 	filepath.Walk(repo, func(p string, info os.FileInfo, err error) error {
 		if err == nil && !info.IsDir() && info.Name() == "zz_contracts_verif.go" {
@@ -88,7 +96,13 @@ func ContractFiles(repo string, extraDirs ...string) []string {
 	})
 	for _, d := range extraDirs {
 		m, _ := filepath.Glob(filepath.Join(d, "*.contracts"))
-		out = append(out, m...)
+		for _, f := range m {
+			b := filepath.Base(f)
+			if strings.HasPrefix(b, "asm_") && b != "asm_"+arch+".contracts" {
+				continue
+			}
+			out = append(out, f)
+		}
 	}
 	sort.Strings(out)
 	return out
